@@ -130,10 +130,15 @@ class Extractor:
             elif cur is not None:
                 defs[cur].append(l)
             elif s.startswith("//@use "):
-                name = s.split()[1]
+                parts = s.split()
+                name = parts[1]
                 if name not in defs:
                     raise LostAnchor("template: //@use of undefined %s" % name)
-                out.extend(defs[name])
+                subs = [p.split("=>", 1) for p in parts[2:] if "=>" in p]
+                for dl in defs[name]:
+                    for a, b in subs:
+                        dl = dl.replace(a, b)
+                    out.append(dl)
             else:
                 out.append(l)
         return out
@@ -258,6 +263,10 @@ class Extractor:
                        "proof_after": []}
                 fns.append(cur)
                 sub = cur["contract"]
+            elif s.startswith("//@loop_pre ") or s.startswith("//@loop_post ") or s.startswith("//@loop_end "):
+                # ghost lines placed immediately before / after loop N, or at the end of its body
+                key = s.split()[0][3:]
+                sub = cur.setdefault(key, {}).setdefault(int(s.split()[1]), [])
             elif s.startswith("//@loop_r7 "):
                 # extra invariant lines used only if rule R7 has to desugar this loop (a `continue`
                 # appeared in its body): the while form needs its bound and a decreases clause
@@ -272,7 +281,8 @@ class Extractor:
             elif s.startswith("//@proof_after ") or s.startswith("//@proof_before "):
                 before = s.startswith("//@proof_before ")
                 a = shlex.split(s.split(" ", 1)[1])
-                pa = {"regex": a[0], "text": [], "before": before}
+                pa = {"regex": a[0], "text": [], "before": before,
+                      "nth": int(self.parse_opts(a[1:]).get("nth", 0))}
                 cur["proof_after"].append(pa)
                 sub = pa["text"]
             elif s.startswith("//@proof_end"):
@@ -377,8 +387,9 @@ class Extractor:
             self.hit("R5.external_body")
         if fo.get("attr"):
             # I4: verifier-only attribute (e.g. a larger resource limit for one function)
-            self.out.emit("    #[%s]" % fo["attr"])
-            self.hit("I4.attr")
+            for at in fo["attr"].split(";"):
+                self.out.emit("    #[%s]" % at.strip())
+                self.hit("I4.attr")
         new_sig = sig_txt.split("\n")
         # keep the line map: if the number of lines changed, map all to the first sig line
         if len(new_sig) == len(sig_lines):
@@ -402,9 +413,10 @@ class Extractor:
         # --- body
         body_first = open_ln
         loops = loops_in(src.code, p_open + 1, p_close)
-        loop_open_ln = {}
+        loop_open_ln, loop_close_ln = {}, {}
         for n, (ks, bo) in enumerate(loops):
             loop_open_ln[src.line_of(bo)] = (n, ks, bo)
+            loop_close_ln[src.line_of(match_close(src.code, bo))] = n
         for n in f["loops"]:
             if n >= len(loops):
                 raise LostAnchor("fn %s has %d loops, contract names loop %d" % (name, len(loops), n))
@@ -412,9 +424,17 @@ class Extractor:
         for pa in f["proof_after"]:
             hits = [k for k in range(open_ln, last + 1)
                     if re.search(pa["regex"], self.code_line(src, k))]
-            if len(hits) != 1:
-                raise LostAnchor("proof_after %r in fn %s matched %d lines" % (pa["regex"], name, len(hits)))
-            (pb_lines if pa.get("before") else pa_lines)[hits[0]] = pa["text"]
+            if pa.get("nth"):
+                # the anchor text occurs several times: `nth=` picks one, `of=` pins the expected count
+                if len(hits) < pa["nth"]:
+                    raise LostAnchor("proof anchor %r in fn %s: match %d of %d" % (pa["regex"], name, pa["nth"], len(hits)))
+                hit = hits[pa["nth"] - 1]
+            else:
+                if len(hits) != 1:
+                    raise LostAnchor("proof_after %r in fn %s matched %d lines" % (pa["regex"], name, len(hits)))
+                hit = hits[0]
+            tgt = pb_lines if pa.get("before") else pa_lines
+            tgt[hit] = tgt.get(hit, []) + pa["text"]
         drop_tail = fo.get("drop_tail")
         tail_dropped = False
         k = open_ln
@@ -438,6 +458,10 @@ class Extractor:
                 continue
             if k in loop_open_ln:
                 n, ks, bo = loop_open_ln[k]
+                for pl in f.get("loop_pre", {}).get(n, []):
+                    if pl.strip():
+                        self.out.emit(pl)
+                        self.hit("I4.proof_lines")
                 inv = f["loops"].get(n, [])
                 lc = match_close(src.code, bo)
                 body_code = src.code[bo:lc]
@@ -489,6 +513,21 @@ class Extractor:
                         self.out.emit(pl)
                         self.hit("I4.proof_lines")
                 self.out.emit_src(src, k, l)
+            if k in loop_close_ln and f.get("loop_end", {}).get(loop_close_ln[k]):
+                # before the closing brace of the loop body (the line must hold only that brace)
+                if src.lines[k].strip() != "}":
+                    raise LostAnchor("loop_end: loop %d of fn %s does not close on its own line" % (loop_close_ln[k], name))
+                self.out.lines.pop(); self.out.origin.pop()
+                for pl in f["loop_end"][loop_close_ln[k]]:
+                    if pl.strip():
+                        self.out.emit(pl)
+                        self.hit("I4.proof_lines")
+                self.out.emit_src(src, k, l)
+            if k in loop_close_ln:
+                for pl in f.get("loop_post", {}).get(loop_close_ln[k], []):
+                    if pl.strip():
+                        self.out.emit(pl)
+                        self.hit("I4.proof_lines")
             if k in pa_lines:
                 for pl in pa_lines[k]:
                     if pl.strip():
